@@ -400,7 +400,8 @@ def _energy(case, u):
 @st.composite
 def step_cases(draw, tier):
     return dict(n=draw(st.integers(1, 3)), nsteps=draw(st.integers(1, 4)), dt=draw(st.sampled_from([.1, .5, 2., 10.])), k=draw(st.sampled_from([0., 1., 5.])), blowup=draw(st.booleans()),
-                maxretry=draw(st.integers(0, 3)), u0=[draw(st.sampled_from([.5, 1., 2., -1.])) for _ in range(3)], tol=draw(st.sampled_from([1e-10, 1e-8])))
+                maxretry=draw(st.integers(0, 3)), u0=[draw(st.sampled_from([.5, 1., 2., -1., 3.])) for _ in range(3)], tol=draw(st.sampled_from([1e-10, 1e-8])),
+                stiff=draw(st.sampled_from([0., 0., 10., 40.])), newton=draw(st.booleans()), maxiter=draw(st.sampled_from([8, 20])), dtmax=draw(st.sampled_from([None, None, .3, 1.2, 3.])))
 
 
 def check_step(case, rec):
@@ -414,13 +415,20 @@ def check_step(case, rec):
         res = (u - u0) / dt + u + case['k'] * u ** 3
         if case['blowup']:
             res = res + numpy.log(u) * 3
+        if case.get('stiff'):
+            res = res + case['stiff'] * numpy.log(u)      # a full step overshoots out of the domain of log, half steps converge: exercises the bisection fall-back
+        if case.get('dtmax'):
+            res = res + 0. * numpy.sqrt(case['dtmax'] - dt)      # the residual is NaN for time steps above dtmax: the step must fall back to halved steps until they fit
         S = solver.System([res], trial='u')
         args = dict(u=numpy.array(case['u0'][:n]))
         t = 0.
         for i in range(case['nsteps']):
             try:
-                new = S.step(arguments=args, suffix='0', timearg='t', timesteparg='dt', timestep=case['dt'], maxretry=case['maxretry'], tol=case['tol'], maxiter=20)
+                kw = dict(method=solver.Newton()) if case.get('newton') else {}
+                new = S.step(arguments=args, suffix='0', timearg='t', timesteparg='dt', timestep=case['dt'], maxretry=case['maxretry'], tol=case['tol'], maxiter=case.get('maxiter', 20), **kw)
             except (solver.SolverError, matrix.MatrixError) as e:
+                if case.get('dtmax') and not case.get('stiff') and not case['blowup'] and case['k'] == 0 and case['dt'] / 2 ** case['maxretry'] <= case['dtmax'] and all(v > 0 for v in case['u0'][:n]):
+                    raise Violation('step-gave-up', f'step {i}: {type(e).__name__} although halving dt={case["dt"]} at most {case["maxretry"]} times reaches the admissible step {case["dtmax"]} of a linear decay problem', where='step:gave-up')
                 rec.label('outcome:' + type(e).__name__); rec.nontrivial = True
                 return
             except Exception as e:
@@ -434,7 +442,10 @@ def check_step(case, rec):
                 raise Violation('unconverged-returned', f'step {i}: residual {r.tolist()} at returned state', where='step:tolerance')
             t += case['dt']
             if abs(float(new['t']) - t) > 1e-9 * (1 + abs(t)):
-                raise Violation('time-bookkeeping', f'step {i}: t={new["t"]} expected {t}', where='step:time')
+                raise Violation('time-bookkeeping', f'step {i}: t={new["t"]} expected {t} (last sub-step dt={new["dt"]}, t0={new["t0"]})', where='step:time')
+            if abs(float(new['t0']) + float(new['dt']) - float(new['t'])) > 1e-9 * (1 + abs(t)):
+                raise Violation('time-bookkeeping', f'step {i}: t0 + dt = {float(new["t0"]) + float(new["dt"])} but t = {new["t"]}', where='step:time0')
+            if float(new['dt']) < case['dt'] * (1 - 1e-12): rec.label('step:bisected')
             args = new
         rec.label('outcome:returned'); rec.nontrivial = case['nsteps'] >= 2
 
@@ -594,7 +605,7 @@ def check_project(case, rec):
 
 SUBS = [Sub('matrix', matrix_cases, check_matrix, {'quick': 2500, 'thorough': 40000}, weight=3),
         Sub('system', system_cases, check_system, {'quick': 150, 'thorough': 3000}, weight=3, timeout=120),
-        Sub('step', step_cases, check_step, {'quick': 40, 'thorough': 800}, weight=1, timeout=120),
+        Sub('step', step_cases, check_step, {'quick': 120, 'thorough': 2000}, weight=1, timeout=120),
         Sub('coupled', coupled_cases, check_coupled, {'quick': 100, 'thorough': 2000}, weight=1, timeout=120),
         Sub('project', project_cases, check_project, {'quick': 60, 'thorough': 1200}, weight=1, timeout=120)]
 
